@@ -265,10 +265,12 @@ From ZV.Mem Require Import AllocBorrow AllocBorrowTheorems.
 (* ---- ZSTD_DCtx with ZSTD_d_refMultipleDDicts (ZV.Mem.AllocBorrow): the DDicts are BORROWED from the caller, the hash set that
    remembers them belongs to the DCtx.  Caller [bclient]: it keeps a DDict alive from the moment ZSTD_DCtx_refDDict returned
    success until ZSTD_DCtx_reset(parameters) / ZSTD_freeDCtx, and is free to release it otherwise - in particular after a
-   ZSTD_DCtx_refDDict that returned an error.  The REPAIRED ZSTD_DCtx_refDDict (8de9dc9), every history of create / refDDict k
-   (any expansion decision) / refDDict(NULL) / a frame decoded / parameter reset (releases the set, b70602d) / free and
-   create / free of two DDicts (by copy, by reference), every oracle, every size: the library never reads a released DDict,
-   no double free, nothing allocated after the teardown *)
+   ZSTD_DCtx_refDDict that returned an error.  The same family holds the rest of the DCtx: the local DDict of
+   ZSTD_DCtx_loadDictionary (copy / reference; released by ZSTD_clearDict) and the stream buffer.  The REPAIRED
+   ZSTD_DCtx_refDDict (8de9dc9), every history of create / refDDict k (any expansion decision) / refDDict(NULL) /
+   loadDictionary / a frame decoded in one call or streamed (any selection among the referenced DDicts, any buffer decision) /
+   parameter reset (releases the set, b70602d) / free and create / free of two DDicts (by copy, by reference), every oracle,
+   every size: the library never reads a released DDict, no double free, nothing allocated after the teardown *)
 Theorem borrow_any_history_no_leak : forall a b c d ops, forallb bok ops = true -> forall o,
   let s := fst (run o (Seq (gsession bop (bcl a b c d) ops) (btd a b c d)) init_state) in
   live s = [] /\ errs s = [].
@@ -282,8 +284,8 @@ Theorem borrow_any_history_error_iff_failure : forall a b c d ops op, forallb bo
 Proof. exact borrow_any_history_error_iff_failure_l. Qed.
 Print Assumptions borrow_any_history_error_iff_failure.
 
-(* ... while the DCtx is alive, whatever failed before: (create DDict k if the handle is empty,) reference it and decode a frame
-   with memory available: success, the reference is recorded by the caller, no ownership error *)
+(* ... while the DCtx is alive, whatever failed before: (create DDict k if the handle is empty,) reference it, decode a frame and
+   stream one with memory available: success, the reference is recorded by the caller, no ownership error *)
 Theorem borrow_reusable_after_any_history : forall a b c d ops, forallb bok ops = true -> forall o1 o2, (forall k, fails o2 k = false) ->
   forall k, (k <? 2) = true ->
   let s1 := fst (run o1 (gsession bop (bcl a b c d) ops) init_state) in
